@@ -1,4 +1,5 @@
 import GrolProofs.MemoryLemmas
+import Grol.Generated.LoopFacts
 /-
 C09 — execution is bounded: the arithmetic of the allocation guard, and the depth counter.
 
@@ -268,3 +269,120 @@ example : (run 3 0 (chain 5)).2 = .maxDepth 4 := by decide
 example : (run 3 0 (.call (chain 2) (chain 4))).1 = [1, 2, 3, 2, 1, 0, 1, 2, 3, 4, 3, 2, 1, 0] := by decide
 
 end Grol.Depth
+
+/-! ### the Go-level loops of the evaluator (time part of C09: the deadline is observed)
+
+`evalInternal` tests `s.Context.Err()` on entry.  A Go-level loop therefore observes the deadline once
+per iteration when its body evaluates a node; every other loop must be bounded by something that
+already exists (a container, a parameter list, the frame chain), by a constant, or by a count that
+went through the allocation guard (so that count * 16 bytes fit the memory budget).  The list of
+loops is regenerated from the Go sources on every run (`Grol.Generated.LoopFacts`, extractor
+harness/cmd/harness/extract_loops.go); the classification below is by hand, and
+`C09.loops_classified` breaks when a loop is added, removed, moved to another function or changes
+its header.  How long one iteration takes (Go scheduler, GC, cache misses) is not a theorem: the
+`bounded` suite measures wall-clock time after the deadline on the real interpreter. -/
+namespace Grol.Generated.LoopFacts
+
+inductive LoopClass
+  /-- each iteration evaluates a node: `evalInternal` polls the context -/
+  | polls
+  /-- iterates over an existing container, string, argument or parameter list, statement list -/
+  | boundedByContainer
+  /-- the iteration count went through MulLen / MustBeOk / MakeObjectSlice -/
+  | boundedByGuardedAllocation
+  /-- at most a compile-time constant number of iterations -/
+  | boundedByConstant
+  /-- walks the chain of environments (at most the current call depth ≤ MaxDepth + 1 frames) -/
+  | boundedByFrames
+  deriving DecidableEq, Repr
+
+structure Classified where
+  site : String
+  cls : LoopClass
+  why : String
+
+open LoopClass in
+/-- the hand classification, in the order of the generated list -/
+def Spec.classifiedLoops : List Classified := [
+  ⟨"eval/eval.go | State.applyExtension | range args", boundedByContainer, "the evaluated argument list of one call"⟩,
+  ⟨"eval/eval.go | State.evalArrayInfixExpression | range rightVal", boundedByGuardedAllocation,
+    "array * count: n = MulLen(len, count) is checked, n = 0 returns before the loop, otherwise count ≤ n and MakeObjectSlice(n) passed the guard"⟩,
+  ⟨"eval/eval.go | State.evalExpressions | range exps", polls, "evalInternal(e) per element"⟩,
+  ⟨"eval/eval.go | State.evalForExpression | for ; ; ", polls, "evalInternal(fe.Condition) per iteration"⟩,
+  ⟨"eval/eval.go | State.evalForInteger | for i := startValue; i < endValue; i++", polls, "evalInternal(newBody) per iteration; an error result (deadline) leaves the loop"⟩,
+  ⟨"eval/eval.go | State.evalForList | for ; object.Len(list) > 0; ", polls, "evalInternal(fe.Body) per iteration (Rest(list) costs O(len) per iteration)"⟩,
+  ⟨"eval/eval.go | State.evalIntegerInfixExpression | for i := leftVal; i < rightVal; i++", boundedByGuardedAllocation,
+    "left:right: MakeObjectSlice(right-left) passed the guard; when the subtraction wraps, left > right and the loop body never runs (range_sound)"⟩,
+  ⟨"eval/eval.go | State.evalMapLiteral | range node.Order", polls, "s.Eval(keyNode), s.Eval(valueNode)"⟩,
+  ⟨"eval/eval.go | State.evalPrintLogError | range node.Parameters", polls, "evalInternal(v) per parameter"⟩,
+  ⟨"eval/eval.go | State.evalStatements | range stmts", polls, "evalInternal(statement)"⟩,
+  ⟨"eval/eval.go | State.extendFunctionEnv | range params", boundedByContainer, "the parameter list of the called function"⟩,
+  ⟨"eval/eval_api.go | State.SetArgs | range args", boundedByContainer, "host supplied argument vector"⟩,
+  ⟨"eval/macro_expension.go | State.DefineMacros | for i := 0; i < len(program.Statements); ", boundedByContainer,
+    "each iteration either advances i or removes one statement of the parsed program"⟩,
+  ⟨"eval/macro_expension.go | extendMacroEnv | range macro.Parameters", boundedByContainer, "parameter list of the macro"⟩,
+  ⟨"eval/macro_expension.go | quoteArgs | range exp.Arguments", boundedByContainer, "argument list of one macro call in the source"⟩,
+  ⟨"eval/memo.go | Cache.Get | range args", boundedByContainer, "argument list (at most MaxArgs = 4 entries)"⟩,
+  ⟨"eval/memo.go | Cache.Set | range args", boundedByContainer, "argument list"⟩,
+  ⟨"eval/stack.go | State.Stack | for e := s.env; e != nil; e = e.StackParent()", boundedByFrames, "one step per stack frame"⟩,
+  ⟨"object/interp.go | Unwrap | range objs", boundedByContainer, "existing slice"⟩,
+  ⟨"object/interp.go | ValidIdentifier | range []byte(name)", boundedByContainer, "bytes of a name"⟩,
+  ⟨"object/interp.go | initialIdentifiersCopy | range extraIdentifiers", boundedByContainer, "the host's table of pre-seeded identifiers"⟩,
+  ⟨"object/object.go | BigArray.JSON | range ao.elements", boundedByContainer, "existing array"⟩,
+  ⟨"object/object.go | BigMap.Append | range right.mapElements()", boundedByContainer, "existing right map (result size guarded before)"⟩,
+  ⟨"object/object.go | BigMap.Inspect | range m.kv", boundedByContainer, "existing map"⟩,
+  ⟨"object/object.go | BigMap.JSON | range m.kv", boundedByContainer, "existing map"⟩,
+  ⟨"object/object.go | BigMap.Unwrap | range m.kv", boundedByContainer, "existing map"⟩,
+  ⟨"object/object.go | Cmp | range m1.mapElements()", boundedByContainer, "existing map (recursion into values: bounded by the value's size)"⟩,
+  ⟨"object/object.go | Cmp | range a1.Elements()", boundedByContainer, "existing array"⟩,
+  ⟨"object/object.go | Elements | range v.smallKV[:v.len]", boundedByContainer, "existing small map"⟩,
+  ⟨"object/object.go | Elements | range v.kv", boundedByContainer, "existing map (result slice guarded)"⟩,
+  ⟨"object/object.go | Error.Inspect | range e.Stack", boundedByContainer, "recorded stack of an error"⟩,
+  ⟨"object/object.go | Extension.Usage | for i := 1; i <= e.MinArgs; i++", boundedByConstant, "MinArgs is a registration constant of the extension"⟩,
+  ⟨"object/object.go | First | range a.Parameters", boundedByContainer, "parameter list"⟩,
+  ⟨"object/object.go | Hashable | range sa.smallArr[:sa.len]", boundedByContainer, "at most MaxSmallArray elements"⟩,
+  ⟨"object/object.go | Hashable | range sm.smallKV[:sm.len]", boundedByContainer, "at most MaxSmallMap entries"⟩,
+  ⟨"object/object.go | Rest | range body", boundedByContainer, "statements of a function body"⟩,
+  ⟨"object/object.go | SmallMap.Append | range right.mapElements()", boundedByContainer, "existing right map"⟩,
+  ⟨"object/object.go | SmallMap.Append | range right.mapElements()", boundedByContainer, "existing right map"⟩,
+  ⟨"object/object.go | SmallMap.Delete | for i := where; i < m.len-1; i++", boundedByConstant, "m.len ≤ MaxSmallMap"⟩,
+  ⟨"object/object.go | SmallMap.Inspect | range m.len", boundedByConstant, "m.len ≤ MaxSmallMap"⟩,
+  ⟨"object/object.go | SmallMap.Set | for j := m.len - 1; j > i; j--", boundedByConstant, "m.len ≤ MaxSmallMap"⟩,
+  ⟨"object/object.go | SmallMap.Unwrap | range m.smallKV[:m.len]", boundedByConstant, "m.len ≤ MaxSmallMap"⟩,
+  ⟨"object/object.go | SmallMap.get | range m.len", boundedByConstant, "m.len ≤ MaxSmallMap"⟩,
+  ⟨"object/object.go | UnwrapStringKeys | range m.mapElements()", boundedByContainer, "existing map"⟩,
+  ⟨"object/object.go | Value | for ; ; ", boundedByConstant, "reference chain: panics after 100 steps"⟩,
+  ⟨"object/object.go | WriteStrings | range list", boundedByContainer, "existing list"⟩,
+  ⟨"object/state.go | Constant | range name", boundedByContainer, "runes of a name"⟩,
+  ⟨"object/state.go | Environment.BaseInfo | range sets.Sort(tokInfo.Keywords)", boundedByContainer, "token tables"⟩,
+  ⟨"object/state.go | Environment.BaseInfo | range sets.Sort(tokInfo.Tokens)", boundedByContainer, "token tables"⟩,
+  ⟨"object/state.go | Environment.BaseInfo | range sets.Sort(tokInfo.Builtins)", boundedByContainer, "token tables"⟩,
+  ⟨"object/state.go | Environment.BaseInfo | range ext", boundedByContainer, "extension registry"⟩,
+  ⟨"object/state.go | Environment.Info | for ; ; ", boundedByFrames, "one step per enclosing environment"⟩,
+  ⟨"object/state.go | Environment.Info | range e.store", boundedByContainer, "bindings of one environment"⟩,
+  ⟨"object/state.go | Environment.Info | range keys", boundedByContainer, "bindings of one environment"⟩,
+  ⟨"object/state.go | Environment.RegisterTrie | for ; e.outer != nil; ", boundedByFrames, "walk to the root environment"⟩,
+  ⟨"object/state.go | Environment.RegisterTrie | range e.store", boundedByContainer, "bindings"⟩,
+  ⟨"object/state.go | Environment.SaveGlobals | for ; e.outer != nil; ", boundedByFrames, "walk to the root environment"⟩,
+  ⟨"object/state.go | Environment.SaveGlobals | range e.store", boundedByContainer, "bindings"⟩,
+  ⟨"object/state.go | Environment.SaveGlobals | range keys", boundedByContainer, "bindings"⟩,
+  ⟨"object/state.go | Environment.makeRef | for ; e.outer != nil; ", boundedByFrames, "walk up the (lexical) environment chain"⟩,
+  ⟨"repl/repl.go | logParserErrors | range errs", boundedByContainer, "parser errors of one input"⟩ ]
+
+/-- **C09 (time part, 1)**: every Go-level loop of the evaluator is one of the classified loops and vice
+versa (same sites, same order): a new, removed, moved or re-headed loop breaks this obligation. -/
+theorem C09.loops_classified : loops.map (·.site) = Spec.classifiedLoops.map (·.site) := by decide
+
+/-- **C09 (time part, 2)**: the loops classified `polls` are exactly those whose body contains a call of a
+context-polling evaluator entry point (a syntactic fact of the source, regenerated) -/
+theorem C09.polling_loops_poll :
+    (loops.filter (·.polls)).map (·.site) =
+      (Spec.classifiedLoops.filter (·.cls == LoopClass.polls)).map (·.site) := by decide
+
+/-- no loop is left outside the five classes, and there are unbounded-looking headers (`for ; ;`) only in
+the classes `polls`, `boundedByConstant` (reference chain, 100 steps) and `boundedByFrames` -/
+theorem C09.bare_for_loops :
+    ((loops.zip Spec.classifiedLoops).filter (fun p => p.1.kind == "for" && p.1.over == "; ; ")).map (·.2.cls) =
+      [LoopClass.polls, LoopClass.boundedByConstant, LoopClass.boundedByFrames] := by decide
+
+end Grol.Generated.LoopFacts
